@@ -507,6 +507,12 @@ def gen_C02_base(seed):
     if r.random() < 0.3:
         mid = round(s["t0"] + direction * L * r.uniform(0.2, 0.8), 6)
         scn["ops"] = [{"op": "integrate", "t": mid}, {"op": "integrate"}]
+        rk_ = sub(seed, "switch_constants")
+        if rk_.random() < 0.5:
+            # the right-hand side changes between two calls (system.constants assigned) exactly where the first call ended: every slope
+            # of the next step has to be the slope of the NEW right-hand side
+            k_old = s["constants"].get("k", 1.0)
+            scn["ops"].insert(1, {"op": "set", "attr": "constants", "value": dict(s["constants"], k=float("%.4g" % (k_old * rk_.uniform(1.5, 3.0))))})
     if is_implicit(s["method"]) and r.random() < 0.5:
         # one Newton iteration per solve never converges on the extended-precision path: the step shrinks for thousands of steps
         scn["knobs"]["newton_cap"] = r.choice([2, 4]) if dtype == "longdouble" else r.choice([1, 2, 4])
